@@ -427,9 +427,6 @@ class WebsocketSession(object):
             self._close_socket()
             raise
 
-        selector = self._selector_cls(sock)
-        log.debug('%r created', selector)
-
         def _regular():
             """Run regular events if websocket is ready."""
             if self._ready:
@@ -438,7 +435,12 @@ class WebsocketSession(object):
                 )
             return ()
 
+        selector = None
         try:
+            # May raise if the socket was closed while the Connected
+            # event was handled (by WebSocket.__exit__, for instance)
+            selector = self._selector_cls(sock)
+            log.debug('%r created', selector)
             while not websocket.is_closed:
                 readable, max_bytes = selector.wait(self.BUFFER_SIZE, poll)
                 for event in _regular():
@@ -480,6 +482,7 @@ class WebsocketSession(object):
             self._close_socket()
             yield events.Disconnected(graceful=True)
         finally:
-            selector.close()
+            if selector is not None:
+                selector.close()
             # A no-op unless the consumer abandoned the generator
             self._close_socket()
